@@ -134,6 +134,22 @@ def snap(obj):
     return {'cls': type(obj).__name__, 'value': norm(obj)}
 
 
+def strict_snap(obj):
+    '''snap() plus the Python types of all labels (1 / True / 1.0 are told apart).'''
+    import static_frame as sf
+    out = dict(snap(obj))
+
+    def types(ix):
+        return [type(x).__name__ if not isinstance(x, (list, tuple)) else [type(y).__name__ for y in x] for x in ix.values.tolist()]
+    if isinstance(obj, sf.Frame):
+        out['types'] = [types(obj.index), types(obj.columns)]
+    elif isinstance(obj, sf.Series):
+        out['types'] = [types(obj.index)]
+    elif isinstance(obj, IndexBase):
+        out['types'] = [types(obj)]
+    return out
+
+
 def first_diff(a, b, path=''):
     '''Human readable location of the first difference between two snapshots.'''
     if type(a) != type(b):
